@@ -4,6 +4,7 @@ import (
 	"bytes"
 	"encoding/json"
 	"fmt"
+	"html"
 	"reflect"
 	"sort"
 	"strings"
@@ -254,6 +255,12 @@ func init() {
 						break
 					}
 				}
+			}
+			// nothing is lost: decoding the entities gives the input back (a NUL
+			// byte is replaced by U+FFFD and is the one exception; theorem
+			// C20_html_unescape_escape)
+			if !strings.Contains(s, "\x00") && html.UnescapeString(out) != s {
+				e.Violate("c20-html", fmt.Sprintf("htmlEscape(%q) = %q does not decode back to the input", s, out), rp)
 			}
 			if out != s {
 				e.Distinct("h/" + s)
